@@ -42,6 +42,54 @@ class ChildKilled(BaseException):
     the unwinding produces afterwards (a SIGKILL runs no finally clause)."""
 
 
+class _FakeRun:
+    def __init__(self, mod):
+        self.mod = mod
+
+    def __enter__(self):
+        return self
+
+    def __exit__(self, *exc):
+        self.mod.end_run()
+        return False
+
+
+class _FakeMlflow(type(sys)):
+    """Stand-in for the mlflow package (the real one is slow to import and writes ./mlruns), keeping
+    the one rule of its run API that matters here: at most one active run per process."""
+
+    def __init__(self):
+        super().__init__('mlflow')
+        self.active = None
+        self.calls: list = []
+
+    def start_run(self, *a, **kw):
+        if self.active is not None:
+            raise Exception('Run with UUID fake is already active. To start a new run, first end the current run with mlflow.end_run().')
+        self.active = _FakeRun(self)
+        self.calls.append(('start_run',))
+        return self.active
+
+    def end_run(self, status='FINISHED'):
+        self.active = None
+        self.calls.append(('end_run', status))
+
+    def active_run(self):
+        return self.active
+
+    def set_tag(self, key, value):
+        self.calls.append(('set_tag', key, value))
+
+    def log_param(self, key, value):
+        self.calls.append(('log_param', key))
+
+    def log_params(self, params):
+        self.calls.append(('log_params',))
+
+
+FAKE_MLFLOW = _FakeMlflow()
+
+
 class World:
     """Ground-truth recorder shared by harness, tasks and runners."""
 
@@ -67,6 +115,9 @@ class World:
         self.kill_hook = lambda: None
         self.record_env = bool(os.environ.get('VERIF_RECORD_ENV'))
         self.die = frozenset()                # labels whose run() kills its own process (real backends only)
+        # mlflow as seen by task types declared with mlflow_run=True: the stand-in, or not installed at all
+        FAKE_MLFLOW.active = None
+        sys.modules['mlflow'] = None if fault_exc == 'mlflow-absent' else FAKE_MLFLOW
 
     def rec(self, *ev):
         self.log.append(ev)
@@ -423,8 +474,10 @@ except TypeError:            # a labtech.task() that does not accept this spelli
 TS = labtech.task(type('TS', (TB,), {'__annotations__': {'ext': Any}, 'ext': None, '__module__': __name__, '__qualname__': 'TS',
                                      'EXTRA_FIELDS': ('ext',)}))
 
-TYPES = {c.__name__: c for c in (TA, TB, TC, TD, TN, TM, TF, TP, TJ, T2, TG, TX, TH, TK, TC1, TC2, TL, TFN, TS)}
+TW = _mk('TW', mlflow_run=True)         # every execution is wrapped in an mlflow run
+
+TYPES = {c.__name__: c for c in (TA, TB, TC, TD, TN, TM, TF, TP, TJ, T2, TG, TX, TH, TK, TC1, TC2, TL, TFN, TS, TW)}
 # the limits and cacheability the *declarations above* ask for - never read back from labtech
 MAX_PARALLEL = {'TA': None, 'TB': 1, 'TC': 2, 'TD': 3, 'TN': None, 'TM': 1, 'TF': None, 'TP': None, 'TJ': None, 'T2': None,
-                'TG': None, 'TX': None, 'TH': None, 'TK': 2, 'TC1': 2, 'TC2': 2, 'TL': 1, 'TFN': None, 'TS': None}
+                'TG': None, 'TX': None, 'TH': None, 'TK': 2, 'TC1': 2, 'TC2': 2, 'TL': 1, 'TFN': None, 'TS': None, 'TW': None}
 CACHEABLE = {n: n not in ('TN', 'TM', 'TK', 'TFN') for n in TYPES}
